@@ -1391,6 +1391,58 @@ func concSlowFlushOp(maxpend int) string {
 	return s.finish("slowflushop", flushed)
 }
 
+// kind "grouplate": a late joiner of a shared tag: r1 executing, r2 queued, r1 answered, then r3
+// arrives while r2 is executing - r3 must wait for r2
+func concGroupLate(maxpend int) string {
+	s := newConcSession(maxpend, false)
+	s.setup()
+	const tg = 1300
+	rd := func(off uint64) []byte {
+		return mkFrame(&gmsg{kind: go9p.Tread, a: 0, b: off, c: 16}, true, tg)
+	}
+	called := func(k int) *concReq { // the k-th request with this tag, once the implementation has it
+		deadline := time.Now().Add(2 * time.Second)
+		for time.Now().Before(deadline) {
+			s.mu.Lock()
+			n := 0
+			var hit *concReq
+			for _, cr := range s.reqInfo {
+				if cr.tag == tg {
+					if n == k && cr.called {
+						hit = cr
+					}
+					n++
+				}
+			}
+			s.mu.Unlock()
+			if hit != nil {
+				return hit
+			}
+			time.Sleep(20 * time.Microsecond)
+		}
+		return nil
+	}
+	s.send(rd(1), rd(2))
+	r1 := called(0)
+	if r1 != nil {
+		r1.released <- concAction{answers: 1, payload: []byte("g-1")}
+	}
+	r2 := called(1)
+	s.send(rd(3)) // the late joiner
+	time.Sleep(800 * time.Microsecond)
+	if r2 != nil {
+		r2.released <- concAction{answers: 1, payload: []byte("g-2")}
+	}
+	if r3 := called(2); r3 != nil {
+		select {
+		case r3.released <- concAction{answers: 1, payload: []byte("g-3")}:
+		default:
+		}
+	}
+	s.waitReplies(5, 2*time.Second)
+	return s.finish("grouplate", nil)
+}
+
 func modeSrvconc(tier string, args []string) {
 	bufMode = len(args) > 0 && args[0] == "buf"
 	rounds := 6
@@ -1426,6 +1478,7 @@ func modeSrvconc(tier string, args []string) {
 				jobs = append(jobs, func() string { return concFlushAtR3(mp, fo) })
 			}
 			jobs = append(jobs, func() string { return concSlowDestroy(mp) })
+			jobs = append(jobs, func() string { return concGroupLate(mp) })
 			jobs = append(jobs, func() string { return concSlowFlushOp(mp) })
 			for tk := 0; tk <= 4; tk++ {
 				tk := tk
